@@ -45,6 +45,13 @@ void lrtr_free(void *p)
 void lrtr_dbg(const char *f, ...)
 {
 }
+#ifdef VERIF_NATIVE
+/* native replay links the router-key table (bgpsec_utils.c references it) but not alloc_utils.c */
+void *lrtr_realloc(void *p, size_t sz)
+{
+	return realloc(p, sz);
+}
+#endif
 
 void h_align(void)
 {
